@@ -125,11 +125,28 @@ def unit_traces(ctx, rnd):
     traces = []
     configs = [('none', (), False), ('ab', (b'a', b'b', b'ba', b'zz'), False), ('builtins', (b'print', b'spr', b'e'), False),
                ('keywords', (b'end', b'do', b'c'), False), ('keepall', (), True)]
-    for label, keep, keep_all in configs:
-        pop = ident_population(rnd, n)
-        f = lua.MinifyNameFactory(keep_all_names=keep_all, keep_names_from_file=(kfs.make(keep) if keep else None))
+    # keep files in the formats editors produce, listing identifiers over the whole identifier alphabet: one small
+    # history per file (every high byte as the first character of the first listed name, names that are would-be
+    # generated names, builtins, keyword-like names)
+    for hb in range(128, 256):
+        first = bytes([hb]) + rnd.choice((b'', b'x', b'shot', bytes([rnd.randrange(128, 256)])))
+        others = tuple(rnd.choice((b'a', b'b', b'ba', b'e', b'foo', b'Z', b'_', b'q9', bytes([rnd.randrange(128, 256), 97]))) for _ in range(rnd.randrange(0, 4)))
+        raw = first + (b'\r\n' if hb % 5 == 0 else b'\n') + minify.keep_file_bytes(others, rnd)[0:] if hb % 2 else None
+        configs.append(('file-format/first-%s' % ('glyph' if hb % 2 else 'any'), (first,) + others, False) + ((raw,) if raw else ()))
+    for label, keep, keep_all, *rawopt in configs:
+        small = label.startswith('file-format')
+        pop = ident_population(rnd, 40 if small else n)
+        if small:
+            pop = list(keep) + pop
+            rnd.shuffle(pop)
+        kf = None
+        raw = b''
+        if keep:
+            kf = kfs.make(keep, rnd if small else None, raw=(rawopt[0] if rawopt else None))
+            raw = kfs.raw
+        f = lua.MinifyNameFactory(keep_all_names=keep_all, keep_names_from_file=kf)
         calls = []
-        order = pop + [pop[rnd.randrange(len(pop))] for _ in range(n // 3)] + [b'print', b'end', b'_init', b'btn', b't']
+        order = pop + [pop[rnd.randrange(len(pop))] for _ in range(len(pop) // 3)] + [b'print', b'end', b'_init', b'btn', b't']
         for w in order:
             try:
                 o = f.get_short_name(w)
@@ -137,18 +154,20 @@ def unit_traces(ctx, rnd):
                 ctx.violation('factory-raises/%s' % type(e).__name__, 'get_short_name(%r) raised %s' % (w, e), {'kind': 'unit', 'name': list(w)})
                 break
             calls.append({'in': list(w), 'out': list(o)})
-        traces.append({'calls': calls, 'keep': [list(k) for k in keep], 'keepAll': keep_all, 'builtins': minify.BUILTINS})
+        traces.append({'calls': calls, 'keepFile': list(raw), 'keepAll': keep_all, 'builtins': minify.BUILTINS})
     # canaries (hand-written histories: never derived from the code under test)
     def H(pairs, keep=()):
-        return {'calls': [{'in': list(a), 'out': list(b)} for a, b in pairs], 'keep': [list(k) for k in keep], 'keepAll': False,
+        return {'calls': [{'in': list(a), 'out': list(b)} for a, b in pairs], 'keepFile': list(b'\n'.join(keep)), 'keepAll': False,
                 'builtins': minify.BUILTINS}
     c1 = H([(b'foo', b'a'), (b'bar', b'b'), (b'baz', b'a')])
     c2 = H([(b'foo__', b'a')], keep=(b'a',))
-    v = ctx.validate('TraceRename', traces + [c1, c2], workers=8)
-    ctx.traces -= 2
+    c3 = H([(b'\xefx', b'a')], keep=(b'# c', b' \xefx\t\r'))
+    v = ctx.validate('TraceRename', traces + [c3, c1, c2], workers=8)
+    ctx.traces -= 3
+    ctx.canary(v[-3][0] == 'rename-kept', 'listed name (blanks around it, CR line end) renamed')
     ctx.canary(v[-2][0] in ('rename-injective', 'rename-consistent'), 'output name duplicated')
     ctx.canary(v[-1][0] in ('rename-generated', 'rename-injective'), 'generated name collides with a kept name')
-    for (label, keep, keep_all), t, vv in zip(configs, traces, v):
+    for (label, keep, keep_all, *_), t, vv in zip(configs, traces, v):
         ctx.evaluations += len(t['calls'])
         if vv[0] == 'ok':
             ctx.nontrivial += 1
